@@ -298,7 +298,7 @@ def run(ctx):
         for a in lm.KINDS[kind][0]:
             if a == "trait":
                 continue                               # a trait block without its trait names is not a valid argument
-            for k in ((1, 2, 3) if thorough else (1, 3)):
+            for k, operand in [(kk, "raw") for kk in ((1, 2, 3) if thorough else (1, 3))] + [(2, "matrix+keywords"), (1, "matrix+keywords")]:
                 for op in ("adjoin", "insert"):
                     for form in ("specific", "generic+"):
                         hid += 1
@@ -315,10 +315,18 @@ def run(ctx):
                         err = None
                         # the label arrays the library requires with a raw block are given; the optional NAME array is omitted
                         lkw = {}
-                        for f in lm.FIELDS[a]:
-                            v = getattr(blk, lm.ATTR[(a, f)], None)
-                            if v is not None and f != "name":
-                                lkw[lm.ATTR[(a, f)]] = v
+                        if operand == "raw":
+                            for f in lm.FIELDS[a]:
+                                v = getattr(blk, lm.ATTR[(a, f)], None)
+                                if v is not None and f != "name":
+                                    lkw[lm.ATTR[(a, f)]] = v
+                        else:
+                            # the block is a labelled MATRIX and label arrays are given as keywords too ("providing this argument
+                            # overwrites the field"): both forms must resolve the conflict the same way
+                            other = [rng.randrange(lm.NID) for _ in range(k)]
+                            for f in lm.FIELDS[a]:
+                                if getattr(blk, lm.ATTR[(a, f)], None) is not None and f in ("name", "grp"):
+                                    lkw[lm.ATTR[(a, f)]] = lm.label_array(a, f, other)
                         for mut in (False, True):
                             work = copy.deepcopy(cur)
                             name = (lm.MUT[op] if mut else op)
@@ -327,11 +335,13 @@ def run(ctx):
                             try:
                                 with time_limit(20):
                                     posa = np.array([pos] * k, dtype=int)       # positions as an array, one per inserted entity (Appendix A)
-                                    res = meth(posa, np.array(blk.mat), **axkw, **lkw) if op == "insert" else meth(np.array(blk.mat), **axkw, **lkw)
+                                    vals = np.array(blk.mat) if operand == "raw" else copy.deepcopy(blk)
+                                    res = meth(posa, vals, **axkw, **lkw) if op == "insert" else meth(vals, **axkw, **lkw)
                                 states.append(lm.project(work if mut else res, kind))
                             except Exception as e:
                                 err = "%s: %s" % (type(e).__name__, str(e)[:200]); states.append(pre0)
-                        out.append({"qual": "%s.%s%s[raw block without names]" % (clsname, lm.MUT[op], "_" + a if form == "specific" else ""),
+                        out.append({"qual": "%s.%s%s[%s]" % (clsname, lm.MUT[op], "_" + a if form == "specific" else "",
+                                                            "raw block without names" if operand == "raw" else "matrix operand with label keywords"),
                                     "id": len(out) + 1, "hist": hid, "step": 0, "cls": clsname, "kind": kind, "presence": "all", "axis": a,
                                     "op": "counterpart", "realop": op, "form": form, "mut": True, "ix": [], "del": [], "pos": [pos], "blk": bax[a],
                                     "raw": True, "objrepr": "k=%d" % k, "pre": states[0], "post": states[1], "opnd": states[1], "err": err,
